@@ -435,11 +435,12 @@ class ProjectGen:
             return '{\n' + ''.join(f'    {e},  {self.comment()}\n' for e in ents) + '  }'
         return '{' + ', '.join(ents) + '}'
 
-    def call_text(self, func: str, pos: T.List[str], kw: T.List[T.Tuple[str, str]], var: T.Optional[str]) -> str:
+    def call_text(self, func: str, pos: T.List[str], kw: T.List[T.Tuple[str, str]], var: T.Optional[str],
+                  oneline: bool = False) -> str:
         r = self.rng
         args = pos + [f'{k}{r.choice([" : ", ": ", ":"])}{v}' for k, v in kw]
         head = (f'{var} = ' if var else '') + func + '('
-        layout = r.random()
+        layout = 0.0 if oneline else r.random()
         if layout < 0.45 or len(args) <= 1:
             return head + ', '.join(args) + ')'
         if layout < 0.8:
@@ -571,9 +572,15 @@ class ProjectGen:
                 srcs.append('alt/' + srcs[0])           # same base name in another directory
                 pool.add('alt/' + srcs[0])
                 self.features.append('src-same-basename')
-            shape = r.randrange(12)
+            shape = r.randrange(14)
             if shared_var is not None and not in_sub and r.random() < 0.3:
                 shape = 6
+            oneline = False
+            # a variable consumed by a target of the subdirectory may be defined in the parent directory
+            vdest = dest
+            if in_sub and r.random() < 0.5:
+                vdest = lines
+                self.features.append('var-defined-in-parent-dir')
             pos: T.List[str] = []
             kw: T.List[T.Tuple[str, str]] = []
             sv = f'srcs{i}'
@@ -589,44 +596,56 @@ class ProjectGen:
             elif shape == 2:
                 self.features.append('src-var')
                 if r.random() < 0.4 and len(srcs) > 1:
-                    dest += [f'{sv} = ['] + [f'  {L(s)},' + ('  ' + self.comment() if r.random() < 0.3 else '') for s in srcs] + [']']
+                    vdest += [f'{sv} = ['] + [f'  {L(s)},' + ('  ' + self.comment() if r.random() < 0.3 else '') for s in srcs] + [']']
                 else:
-                    dest.append(f'{sv} = [' + ', '.join(L(s) for s in srcs) + ']')
+                    vdest.append(f'{sv} = [' + ', '.join(L(s) for s in srcs) + ']')
                 pos = [sv]
             elif shape == 3:
                 self.features.append('src-files')
-                dest.append(f'{sv} = files(' + ', '.join(L(s) for s in srcs) + ')')
+                vdest.append(f'{sv} = files(' + ', '.join(L(s) for s in srcs) + ')')
                 pos = [sv]
             elif shape == 4:
                 self.features.append('src-plusassign')
-                dest.append(f'{sv} = [{L(srcs[0])}]')
+                vdest.append(f'{sv} = [{L(srcs[0])}]')
                 for _ in range(r.choice([0, 1])):
-                    dest += self.filler(eg)
+                    vdest += self.filler(eg)
                 rest = ', '.join(L(s) for s in srcs[1:])
-                dest.append(f'{sv} += ' + (f'files({rest})' if r.random() < 0.4 and rest else f'[{rest}]'))
+                vdest.append(f'{sv} += ' + (f'files({rest})' if r.random() < 0.4 and rest else f'[{rest}]'))
                 pos = [sv]
             elif shape == 5:
                 self.features.append('src-concat')
-                dest.append(f'{sv} = [{L(srcs[0])}]')
+                vdest.append(f'{sv} = [{L(srcs[0])}]')
                 pos = [f'{sv} + [' + ', '.join(L(s) for s in srcs[1:]) + ']']
             elif shape == 6 and shared_var is not None and not in_sub:
                 self.features.append('src-shared-var')
                 pos = [shared_var] + [L(s) for s in srcs[:1]]
             elif shape == 7:
                 self.features.append('src-kwarg')
-                dest.append(f'{sv} = [' + ', '.join(L(s) for s in srcs) + ']')
+                vdest.append(f'{sv} = [' + ', '.join(L(s) for s in srcs) + ']')
                 kw.append(('sources', sv))
             elif shape == 8:
                 self.features.append('src-nested-array')
                 pos = ['[' + L(srcs[0]) + ', [' + ', '.join(L(s) for s in srcs[1:]) + ']]']
             elif shape == 9:
                 self.features.append('src-mixed')
-                dest.append(f'{sv} = [' + ', '.join(L(s) for s in srcs[1:]) + ']')
+                vdest.append(f'{sv} = [' + ', '.join(L(s) for s in srcs[1:]) + ']')
                 pos = [L(srcs[0]), sv, L(self.srcname(pool))]
             elif shape == 10:
                 self.features.append('src-get-variable')
-                dest.append(f'{sv} = [' + ', '.join(L(s) for s in srcs) + ']')
+                vdest.append(f'{sv} = [' + ', '.join(L(s) for s in srcs) + ']')
                 pos = [f"get_variable('{sv}')"]
+            elif shape in (12, 13) and len(srcs) >= 2:
+                # two (or three) list expressions next to each other on ONE line
+                self.features.append('src-lists-on-one-line')
+                oneline = True
+                cut = r.randint(1, len(srcs) - 1)
+                parts = [srcs[:cut], srcs[cut:]]
+                if len(parts[1]) > 1 and r.random() < 0.4:
+                    parts = [parts[0], parts[1][:1], parts[1][1:]]
+                pos = []
+                for part in parts:
+                    items = ', '.join(L(s) for s in part)
+                    pos.append(f'files({items})' if r.random() < 0.5 else f'[{items}]')
             else:
                 self.features.append('src-files-inline')
                 pos = ['files(' + ', '.join(L(s) for s in srcs) + ')']
@@ -639,18 +658,22 @@ class ProjectGen:
                     kw.append(('extra_files', '[' + ', '.join(L(s) for s in ef) + ']'))
                     self.features.append('extra-inline')
                 elif efs < 0.8:
-                    dest.append(f'ef{i} = [' + ', '.join(L(s) for s in ef) + ']')
+                    vdest.append(f'ef{i} = [' + ', '.join(L(s) for s in ef) + ']')
                     kw.append(('extra_files', f'ef{i}'))
                     self.features.append('extra-var')
-                else:
+                elif efs < 0.9 or len(ef) < 2:
                     kw.append(('extra_files', 'files(' + ', '.join(L(s) for s in ef) + ')'))
                     self.features.append('extra-files')
+                else:
+                    kw.append(('extra_files', f'files({L(ef[0])}) + [{L(ef[1])}]'))
+                    self.features.append('extra-lists-on-one-line')
+                    oneline = True
             more = self.kwargs_for(eg, func, depvars, [] if in_sub else libvars)
             kw += [(k, v) for k, v in more if k not in {x for x, _ in kw}]
             if kw and r.random() < 0.5:
                 r.shuffle(kw)
             nm = L(name) if r.random() < 0.85 else f"'t{i}' + {L(name[2:])}"
-            text = self.call_text(func, [nm] + pos, kw, var)
+            text = self.call_text(func, [nm] + pos, kw, var, oneline)
             if not in_sub and r.random() < 0.12:
                 self.features.append('target-in-if')
                 dest += ['if true'] + ['  ' + x for x in text.split('\n')] + ['endif']
